@@ -7,7 +7,7 @@ import vlib
 
 
 def modelled_instance(p):
-    return engine.modelled_H(p) and not p['overrides_decode'] and p['parameters'] and \
+    return engine.modelled_C(p) and not p['overrides_decode'] and p['parameters'] and \
         all(len(b) == 2 for b in p['rep_bursts'])
 
 
